@@ -206,6 +206,26 @@ def _near_parallel_pair(rng, prec):
     return (p1, q1), (p2, q2)
 
 
+def _tjunction_pair(rng, prec):
+    """an endpoint of one lattice segment lies in the interior of the other (directions up to 30 units per step)"""
+    big = rng.random() < 0.5
+    dx, dy = (rng.randint(-30, 30), rng.randint(-30, 30)) if big else (rng.randint(-3, 3), rng.randint(-3, 3))
+    if dx == 0 and dy == 0:
+        dx = 1
+    k = rng.randint(2, 9) if big else rng.randint(2, 60)
+    a0 = (rng.randint(-10, 10), rng.randint(-10, 10))
+    a1 = (a0[0] + k * dx, a0[1] + k * dy)
+    j = rng.randint(1, k - 1)
+    p = (a0[0] + j * dx, a0[1] + j * dy)
+    while True:
+        b0 = (rng.randint(-40, 40), rng.randint(-40, 40))
+        if b0 != p:
+            break
+    if rng.random() < 0.5:
+        return (a0, a1), (b0, p)
+    return (b0, p), (a0, a1)
+
+
 def function_cases(rng, n, prec="f64", dbg=False):
     cases = []
     per = 25
@@ -219,11 +239,13 @@ def function_cases(rng, n, prec="f64", dbg=False):
             for v in [0.0, -0.0, 1.0, -1.0, 2.0 ** rng.randint(-20, 20), -(2.0 ** rng.randint(-20, 20)), rng.uniform(-100, 100), rng.uniform(-1e-3, 1e-3)]:
                 c.run("NEXTAFTER %s %s" % (prec, num.enc(_r(prec, v))))
         for _ in range(per):
-            kind = rng.choice(["lat", "lat", "big", "float", "collinear", "collinear", "corner", "shared", "nearvert", "nearvert", "nearpar", "nearpar"])
+            kind = rng.choice(["lat", "lat", "big", "float", "collinear", "collinear", "corner", "shared", "nearvert", "nearvert", "nearpar", "nearpar", "tjunction", "tjunction"])
             if kind == "nearvert":
                 (p1, q1), (p2, q2) = _near_vertical_pair(rng, prec)
             elif kind == "nearpar":
                 (p1, q1), (p2, q2) = _near_parallel_pair(rng, prec)
+            elif kind == "tjunction":
+                (p1, q1), (p2, q2) = _tjunction_pair(rng, prec)
             elif kind == "collinear":
                 (p1, q1), (p2, q2) = _collinear_pair(rng, prec)
             elif kind == "corner":
@@ -253,6 +275,29 @@ def function_cases(rng, n, prec="f64", dbg=False):
             if integer and not dbg:
                 kx = c.run("XPI exact 0 %s" % body)
                 c.check("pyc16 %d %d" % (k, kx))
+        cases.append(c)
+    return cases
+
+
+def tjunction_cases(rng, n, prec="f64"):
+    """a large batch of lattice T-junctions for the pairwise step: the endpoint detection (s or t exactly 0 or
+    1) decides whether the shared point is reused or recomputed; a recomputed point is off by an ulp only in
+    a fraction of a percent of the configurations, so many are needed"""
+    cases = []
+    per = 100
+    for ci in range(max(1, n // per)):
+        c = Case("tj-%s-%d" % (prec, ci), "fn")
+        for _ in range(per):
+            (p1, q1), (p2, q2) = _tjunction_pair(rng, prec)
+            if not _before(p1, q1):
+                p1, q1 = q1, p1
+            if not _before(p2, q2):
+                p2, q2 = q2, p2
+            s1 = rng.random() < 0.5
+            body = "%s %d %s %d" % (_event(p1, q1, s1, 1), 0, _event(p2, q2, not s1, 2), 0)
+            k = c.run("PI %s 0 %s" % (prec, body))
+            kx = c.run("XPI exact 0 %s" % body)
+            c.check("pyc16 %d %d" % (k, kx))
         cases.append(c)
     return cases
 
@@ -301,11 +346,53 @@ def c16_oracle(case):
 # ---------------------------------------------------------------------------------------------
 # orders
 
+def _egcd(a, b):
+    if b == 0:
+        return a, 1, 0
+    g, x, y = _egcd(b, a % b)
+    return g, y, x - (a // b) * y
+
+
+def _parallel_close(rng):
+    """two parallel integer segments exactly 1/|a| apart with about 27 significant bits per coordinate"""
+    while True:
+        a = rng.randint(1 << 26, 1 << 28)
+        b = rng.randint(1 << 26, 1 << 28)
+        g, x, y = _egcd(b, a)          # x*b + y*a = 1
+        if g == 1:
+            break
+    ex, ey = x, -y                      # ex*b - ey*a = 1
+    s = rng.choice([1, 1, -1])
+    return ((0, 0), (a, b)), ((s * ex, s * ey), (s * ex + a, s * ey + b))
+
+
+def _near_collinear_events(rng):
+    """three nearly collinear integer points with about 27 significant bits: an x-extremal vertex of a sliver"""
+    m = 1 << rng.choice([26, 27, 28])
+    p = (0, 0)
+    a = (m + rng.randint(0, 3), m + rng.randint(0, 3))
+    b = (m + rng.randint(0, 3), m + rng.randint(0, 3))
+    if a == b:
+        b = (b[0] + 1, b[1])
+    return p, a, b
+
+
 def order_cases(rng, n):
     cases = []
     per = 40
     for ci in range(max(1, n // per)):
         c = Case("ord-%d" % ci, "fn")
+        for _ in range(4):
+            (a0, a1), (b0, b1) = _parallel_close(rng)
+            for (s1, s2) in ((True, False), (False, True)):
+                e1 = _event(a0, a1, s1, 1) if _before(a0, a1) else _event(a1, a0, s1, 1)
+                e2 = _event(b0, b1, s2, 2) if _before(b0, b1) else _event(b1, b0, s2, 2)
+                c.run("CMPSEG f64 0 %s %s" % (e1, e2))
+                c.run("CMPSEG f64 0 %s %s" % (e2, e1))
+            p, a, b = _near_collinear_events(rng)
+            for (s1, s2) in ((True, True), (True, False)):
+                c.run("CMPEV f64 %s %s" % (_event(p, a, s1, 1), _event(p, b, s2, 2)))
+                c.run("CMPEV f64 %s %s" % (_event(p, b, s2, 2), _event(p, a, s1, 1)))
         for _ in range(per):
             kind = rng.choice(["lat", "lat", "lat", "float", "big"])
             p1, q1 = _rand_seg(rng, kind, "f64")
